@@ -773,14 +773,14 @@ def sinkhorn(x, y, cost=_dummy_cost, regularization=1.0):
     sub_cost = cost[row_mask, :][:, col_mask]
 
     transport_plan = sinkhorn_transport_plan(
-        x, y, cost=sub_cost, regularization=regularization
+        a, b, cost=sub_cost, regularization=regularization
     )
     dim_i = transport_plan.shape[0]
     dim_j = transport_plan.shape[1]
     result = 0.0
     for i in range(dim_i):
         for j in range(dim_j):
-            result += transport_plan[i, j] * cost[i, j]
+            result += transport_plan[i, j] * sub_cost[i, j]
 
     return result
 
